@@ -112,11 +112,15 @@ def run(ctx):
     drv = lib.go_build("c11")
     q = ctx.quick
     # 1. the state machine satisfies its properties under every interleaving of Deliver with the client steps
-    lib.spec_check(ctx, "H1ClientMC", "H1ClientMC.cfg" if q else "H1ClientMC_thorough.cfg", workers=4 if q else 12, timeout=1700,
-                   note="H1Client: every sequence of <=%d abstract exchanges (body / no body, response or request ends the connection, "
+    inv = ("invariants CleanReuse NoReuseAfterClose ClosedNotUsable DirtyIsGivenUp UntilCloseSawEof OneReplyPerRequest "
+           "FinalIndependent NoOverread")
+    lib.spec_check(ctx, "H1ClientMC", "H1ClientMC.cfg", workers=4 if q else 8, timeout=1700,
+                   note="H1Client: every sequence of <=2 abstract exchanges (body / no body, response or request ends the connection, "
                         "read-until-close, over the limit) x buffered/streaming x every interleaving of Dial/Send/PeerReply/Deliver(1..3)/"
-                        "PeerEof/Close/Return; invariants CleanReuse NoReuseAfterClose OneReplyPerRequest FinalIndependent NoOverread "
-                        "ClosedNotUsable" % (2 if q else 3))
+                        "PeerEof/Close/Return; " + inv)
+    if not q:
+        lib.spec_check(ctx, "H1ClientMC", "H1ClientMC_thorough.cfg", workers=12, timeout=1700,
+                       note="H1Client: every sequence of <=3 exchanges over the five core shapes, same interleavings; " + inv)
     # 2. cases
     cases, n = lib.gen_cases(ctx, "H1ClientGen", "H1ClientGen_quick.cfg" if q else "H1ClientGen_thorough.cfg", out_name="grid.ndjson", timeout=1700)
     # 3. run
